@@ -328,14 +328,26 @@ def model_diff(root, recs, state):
     drv = os.path.join(root, "lean", ".lake", "build", "bin", "kvdrv")
     disagreements = []
     total = 0
+    # the shards are independent: run their driver processes concurrently
+    jobs = []
     for rec, path in recs:
         by_model = {}
         for idx, (model, op, real) in enumerate(rec["M"]):
             by_model.setdefault(model, []).append((idx, op, real))
         for model, ops in by_model.items():
+            jobs.append((path, model, ops))
+    from concurrent.futures import ThreadPoolExecutor
+
+    def _drive(job):
+        _, model, ops = job
+        return run([drv, model], stdin="\n".join(op for _, op, _ in ops) + "\n", timeout=3000)
+    if not jobs:
+        return disagreements
+    with ThreadPoolExecutor(max_workers=max(1, min(len(jobs), int(os.environ.get("VERIF_DRV_JOBS", "8"))))) as ex:
+        results = list(ex.map(_drive, jobs))
+    for (path, model, ops), (rc, out) in zip(jobs, results):
+        if True:
             total += len(ops)
-            inp = "\n".join(op for _, op, _ in ops) + "\n"
-            rc, out = run([drv, model], stdin=inp, timeout=3000)
             lines = out.split("\n")
             if lines and lines[-1] == "":
                 lines.pop()
